@@ -407,13 +407,31 @@ func genSynGrammar(rng *rand.Rand, o synGenOpts) *SynGrammar {
 			g.Prods = append(g.Prods, SynProd{Head: len(g.NTs) - 1, Body: run})
 			run = []Sym{N(len(g.NTs) - 1)}
 		}
-		g.Terms = append(g.Terms, "oend")
-		g.IsLit = append(g.IsLit, false)
-		run = append(run, T(len(g.Terms)-1))
-		// a new first alternative of the start symbol: <terminal> Opt0 Opt1 .. oend
-		g.Terms = append(g.Terms, "obegin")
-		g.IsLit = append(g.IsLit, false)
-		body := append([]Sym{T(len(g.Terms) - 1)}, run...)
+		if rng.Intn(2) == 0 {
+			g.Terms = append(g.Terms, "oend")
+			g.IsLit = append(g.IsLit, false)
+			run = append(run, T(len(g.Terms)-1))
+		} else {
+			// what follows the run is reached through two more nonterminals, defined further down:
+			// FIRST of the whole body settles only after several passes
+			g.NTs = append(g.NTs, "OptTail", "OptTail2")
+			t1, t2 := len(g.NTs)-2, len(g.NTs)-1
+			for _, n := range []string{"ot1", "ot2", "otv"} {
+				g.Terms = append(g.Terms, n)
+				g.IsLit = append(g.IsLit, false)
+			}
+			k := len(g.Terms)
+			g.Prods = append(g.Prods, SynProd{Head: t1, Body: []Sym{N(t2), T(k - 1)}}, SynProd{Head: t2, Body: []Sym{T(k - 3)}}, SynProd{Head: t2, Body: []Sym{T(k - 2)}})
+			run = append(run, N(t1))
+		}
+		// a new alternative of the start symbol: <terminal> Opt0 Opt1 .. <tail>, or, half of the
+		// time, beginning with the run itself
+		body := run
+		if rng.Intn(2) == 0 {
+			g.Terms = append(g.Terms, "obegin")
+			g.IsLit = append(g.IsLit, false)
+			body = append([]Sym{T(len(g.Terms) - 1)}, run...)
+		}
 		p := SynProd{Head: 0, Body: body}
 		if o.Actions {
 			p.Action = "log"
@@ -590,6 +608,10 @@ func curatedSyn() []*SynGrammar {
 		// a nonterminal defined by two rules that are not adjacent
 		splitG(synG([]string{"Stmt", "Expr"}, []string{"\"let\"", "\"print\"", "x", "\"+\""},
 			P(0, T(0), T(2)), P(1, T(2)), P(1, N(1), T(3), T(2)), P(0, T(1), N(1)))),
+		// declarations written top-down: an alternative that begins with a nullable nonterminal,
+		// followed by a nonterminal whose FIRST comes through another one defined further down
+		synG([]string{"Decls", "Decl", "Mods", "Var", "Type"}, []string{"\";\"", "\"static\"", "v", "\"int\"", "\"bool\""},
+			P(0, N(1)), P(0, N(0), N(1)), P(1, N(2), N(3), T(0)), P(2), P(2, T(1)), P(3, N(4), T(2)), P(4, T(3)), P(4, T(4))),
 		// a nullable left-recursive list directly after another nonterminal
 		synG([]string{"Block", "Header", "Stmts", "Stmt"}, []string{"\"begin\"", "\"end\"", "p", "x", "\";\""},
 			P(0, N(1), N(2), T(1)), P(1, T(0), T(2)), P(2, N(2), N(3)), P(2), P(3, T(3), T(4))),
